@@ -240,7 +240,8 @@ def Lexer.start (read : Read) (l : Lexer) : Lexer :=
 def Lexer.finish (l : Lexer) (lookaheadEnd : Nat) : Lexer × Nat :=
   let l := if length_is_undefined l.tokEnd then l.markEnd else l
   let l := if l.tokEnd.bytes < l.tokStart.bytes then { l with tokStart := l.tokEnd } else l
-  let cur := l.pos.bytes + 1
+  -- /repo 57e0c8c: every byte of the (fully decoded) look-ahead character counts as examined, not just the first
+  let cur := l.pos.bytes + (if l.laSize > 1 then l.laSize else 1)
   let cur := if l.lookahead == DECODE_ERROR then cur + 4 else cur
   (l, if cur > lookaheadEnd then cur else lookaheadEnd)
 
